@@ -68,6 +68,9 @@ struct C20 : vr::Driver {
     cfgs.push_back({"2 producers: 2 large + 1 large", {{L, L}, {L}}, true, false, th ? 2 : 1});
     cfgs.push_back({"1 producer x 3 small with a blocking sink", {{S, S, S}}, true, false, pb});
     cfgs.push_back({"2 producers x 2 small, producer 0 silenced", {{S, S}, {S, S}}, false, true, th ? 2 : 1});
+    // mixed line lengths within one batch (a 6000-byte and a 70000-byte line between short ones): per-thread order is by logging time
+    cfgs.push_back({"1 producer: small small 6000B small 70000B small", {{S, S, 6000, S, 70000, S}}, false, false, th ? 2 : 1});
+    cfgs.push_back({"2 producers: small 6000B small | small", {{S, 6000, S}, {S}}, true, false, 1});
     {
       // second overflow after a first one has been reported: the backlog accounting must not drift (16-byte line on top of 1 MiB)
       Cfg c{"1 producer: L L L(dropped) | drain | L L 16B(on top of a full backlog)", {{L, L, L, L, L, 16}}, true, false, th ? 2 : 1};
